@@ -31,6 +31,7 @@ type SpecEnv struct {
 	fc        *fnCtx
 	depth     int
 	inTrigger bool
+	at        token.Pos // source position of the program point of a call-site / return-site clause (lexical scoping of locals)
 }
 
 func (env *SpecEnv) with(st *State) *SpecEnv {
@@ -206,7 +207,7 @@ func (e *Engine) trIdent(env *SpecEnv, name string) Val {
 		}
 		// the name still exists elsewhere in the function but not in a scope visible here: the variable meant was
 		// renamed - identify it with the only local of the same type that is new since the baseline and visible here
-		if base := e.w.BaseLocals[funcDisplayName(env.fc.fn)]; base != nil && env.loop != nil {
+		if base := e.w.BaseLocals[funcDisplayName(env.fc.fn)]; base != nil && (env.loop != nil || env.at.IsValid()) {
 			if bt, was := base[name]; was && bt != "?" {
 				var hits []Val
 				for n2, t2 := range localsOf(env.fc.fn) {
@@ -309,6 +310,15 @@ func (e *Engine) localByName(env *SpecEnv, name string) (Val, bool) {
 			cands = vis
 		}
 	}
+	if env.loop == nil && env.at.IsValid() && len(cands) > 0 {
+		var vis []*ssa.Alloc
+		for _, c := range cands {
+			if e.scopeContains(fn, c, env.at) {
+				vis = append(vis, c)
+			}
+		}
+		cands = vis
+	}
 	if len(cands) == 0 {
 		return Val{}, false
 	}
@@ -408,6 +418,24 @@ func (e *Engine) visibleAt(fn *ssa.Function, a *ssa.Alloc, n ast.Node) bool {
 	for s := sc; s != nil && s != types.Universe; s = s.Parent() {
 		if obj := s.Lookup(a.Comment); obj != nil && obj.Pos() == a.Pos() {
 			return s.Pos() <= n.Pos() && n.End() <= s.End()
+		}
+	}
+	return true
+}
+
+// scopeContains: the scope in which the variable of alloc a is declared contains the source position pos.
+func (e *Engine) scopeContains(fn *ssa.Function, a *ssa.Alloc, pos token.Pos) bool {
+	if !a.Pos().IsValid() {
+		return true
+	}
+	pkg := e.w.Pkgs[fn.Pkg.Pkg.Path()]
+	if pkg == nil || pkg.Types == nil {
+		return true
+	}
+	sc := pkg.Types.Scope().Innermost(a.Pos())
+	for s := sc; s != nil && s != types.Universe; s = s.Parent() {
+		if obj := s.Lookup(a.Comment); obj != nil && obj.Pos() == a.Pos() {
+			return s.Pos() <= pos && pos < s.End()
 		}
 	}
 	return true
